@@ -75,12 +75,14 @@ def sig_run(initial, ops):
     ms.SIG_IGN = tab.IGN
     stack = []
     ids = {}
+    keep = []
     try:
         for op in ops:
             if op == 'D':
                 m = ms.DelayedKeyboardInterrupt()
                 m.__enter__()
                 ids[id(m.handler.__self__)] = len(ids)
+                keep.append(m)     # keep every manager alive: object ids must not be reused
                 # the old handler may be the DFL token: DelayedKeyboardInterrupt calls old_handler(*received) on exit
                 stack.append(m)
             elif op == 'X':
